@@ -705,3 +705,19 @@ CASES["C09"] += [
     ("reintroduce F-32 (uncovered dimensions get bound 1)", "mutant", "snaxc/transforms/set_memory_layout.py", "@revert:ec486c0~1", "", ["C09.radix"]),
     ("cover: remaining stride inserted without advancing the extent", "mutant", "snaxc/transforms/set_memory_layout.py", "                    stride.insert(0, Stride(current_stride, remaining))\n                    current_stride = current_stride * remaining\n", "                    stride.insert(0, Stride(current_stride, remaining))\n", ["C09.radix"]),
 ]
+
+BARRIERF = "snaxc/transforms/insert_sync_barrier.py"
+_C13_HELPER_BAD = 'def only_reads(op, value) -> bool:\n    from xdsl.dialects import linalg\n    from xdsl.dialects.memref import CopyOp\n    if isinstance(op, CopyOp):\n        return value is op.source\n    if isinstance(op, linalg.GenericOp):\n        return value in op.inputs\n    return False\n\n\nclass InsertSyncBarrier(ModulePass):'
+_C13_HELPER_GOOD = 'def only_reads(op, value) -> bool:\n    from xdsl.dialects import linalg\n    from xdsl.dialects.memref import CopyOp\n    if isinstance(op, CopyOp):\n        return value is op.source\n    if isinstance(op, linalg.GenericOp):\n        return value in op.inputs and value not in op.outputs\n    return False\n\n\nclass InsertSyncBarrier(ModulePass):'
+_C13_LOOP_OLD = "                for op_use in operand.uses:\n                    # now check if op is dispatched to a specific core and the result"
+_C13_LOOP_NEW = "                for op_use in operand.uses:\n                    if only_reads(op_in_module, operand) and only_reads(op_use.operation, operand):\n                        continue\n                    # now check if op is dispatched to a specific core and the result"
+# two edits in one file: expressed through the @patch form for the unsound variant (the kept seed), and as a twin via two-step text
+CASES["C13"] += [
+    ("read/read pairs skipped for one side only", "mutant", BARRIERF, _C13_LOOP_OLD, "                for op_use in operand.uses:\n                    if operand not in getattr(op_in_module, 'outputs', ()):\n                        continue\n                    # now check if op is dispatched to a specific core and the result", ["C13.every-pair"]),
+    ("dispatch tests nested under a same-block condition", "mutant", BARRIERF, "                    if dispatch_to_dm(op_in_module, ctx) and not dispatch_to_dm(op_use.operation, ctx):\n                        ops_to_sync.append(op_use.operation)\n                        if op_in_module.parent_op() == op_use.operation.parent_op() and isinstance(\n                            for_op := op_in_module.parent_op(), scf.ForOp\n                        ):\n                            assert isinstance(for_op.body.block.last_op, scf.YieldOp)\n                            ops_to_sync.append(for_op.body.block.last_op)\n\n                    if dispatch_to_compute",
+     "                    if op_use.operation.parent_block() is op_in_module.parent_block():\n                      if dispatch_to_dm(op_in_module, ctx) and not dispatch_to_dm(op_use.operation, ctx):\n                        ops_to_sync.append(op_use.operation)\n                        if op_in_module.parent_op() == op_use.operation.parent_op() and isinstance(\n                            for_op := op_in_module.parent_op(), scf.ForOp\n                        ):\n                            assert isinstance(for_op.body.block.last_op, scf.YieldOp)\n                            ops_to_sync.append(for_op.body.block.last_op)\n\n                    if dispatch_to_compute", ["C13.every-pair", "C13.symmetric"]),
+]
+
+CASES["C12"] += [
+    ("reintroduce F-33 (cast re-used where it is not visible)", "mutant", "snaxc/transforms/set_memory_space.py", "@revert:b77f530~1", "", ["C12.l1"]),
+]
